@@ -145,7 +145,7 @@ def main(argv):
                 logf = os.path.join(scratch, "tee.log")
                 open(logf, "wb").close()
                 argv.append(logf)
-            st, so, se = run_tool(argv, stdin=inp, timeout=30)
+            st, so, se = run_limited(argv, stdin=inp, timeout=30)
             shape = "malformed" if docs is None else ("has-empty-doc" if b"" in docs else ("has-cr" if any(b"\r" in d for d in docs) else "plain"))
             c.count((k, inp), nontrivial=len(inp) > 1, bucket="%s/%s" % (k, shape))
             rep = {"op": "b64filter", "child": "child_%s.py" % k, "stdin": inp.decode("latin1"), "stdin_hex": hx(inp),
@@ -206,12 +206,41 @@ def main(argv):
                     break
             # --- undefined behaviour made visible: the same input on the build with libstdc++ assertions
             if ok_assert and k == "id" and (b"" in docs or i % 7 == 0):
-                st2, so2, se2 = run_tool([tool_assert, os.path.join(CHILDREN, "child_id.py")], stdin=inp, timeout=30)
+                st2, so2, se2 = run_limited([tool_assert, os.path.join(CHILDREN, "child_id.py")], stdin=inp, timeout=30)
                 c.count(("assert", inp), nontrivial=True, bucket="assert-build/" + shape)
                 if st2 != 0 or so2 != so:
                     c.violation("undefined-behaviour: b64filter built with -D_GLIBCXX_ASSERTIONS ends with status %s (%s) on this input; the plain build exits %s" % (st2, " ".join(se2.decode("utf-8", "replace").split())[-200:], st),
                                 dict(rep, assert_build_status=st2, assert_build_stderr=se2.decode("utf-8", "replace")[-400:],
                                      how="build with -D_GLIBCXX_ASSERTIONS; printf '<stdin>' | b64filter child_id.py"))
+        # --- children that break the line structure: the tool must fail, never shift documents
+        sruns = []
+        for i, docs in enumerate(cases):
+            if i % (3 if quick else 1) == 0 and docs:
+                enc = [pyb64.b64encode(d) for d in docs]
+                sruns.append((docs, b"\n".join(enc) + b"\n", "drop2" if i % 2 == 0 else "extra"))
+        smodel = None
+        if drv is not None:
+            rc, smodel, err = run_lines(drv, ["BS %s %s" % (k, hx(inp)) for (_, inp, k) in sruns])
+            if len(smodel) != len(sruns):
+                c.broken.append("model driver died on stream children: " + err[-300:])
+                smodel = None
+        for j, (docs, inp, k) in enumerate(sruns):
+            st, so, se = run_limited([tool, os.path.join(CHILDREN, "child_%s.py" % k)], stdin=inp, timeout=30)
+            nlines = sum(len(doc_lines(d)) for d in docs)
+            c.count(("stream", k, inp), nontrivial=True, bucket="child-%s/%s" % (k, "1-line" if nlines == 1 else "n-lines"))
+            rep = {"op": "b64filter", "child": "child_%s.py" % k, "stdin": inp.decode("latin1"), "documents": [d.decode("latin1") for d in docs],
+                   "status": st, "stdout": so.decode("latin1")[:1000], "stderr": se.decode("utf-8", "replace")[-300:]}
+            must_fail = (k == "extra") or nlines >= 2
+            if st == "timeout":
+                c.violation("hang: b64filter with a child that %s did not finish" % ("drops a line" if k == "drop2" else "adds a line"), rep)
+            elif must_fail and st == 0:
+                c.violation("line-structure-broken-unnoticed: child_%s.py wrote %s than it was given, b64filter exit 0" % (k, "one line fewer" if k == "drop2" else "one line more"), rep)
+            if smodel is not None:
+                m = smodel[j]
+                agree = (m.startswith("OK") and st == 0 and m == "OK " + hx(so)) or (m.startswith("ABORT") and st not in (0, "timeout"))
+                if not agree:
+                    c.broken.append("correspondence b64filter model vs bin/b64filter with child_%s.py: stdin %r: model %s, tool status %s" % (k, inp[:100], m[:100], st))
+        c.cov["traces_validated_against_impl"] += len(sruns)
     finally:
         shutil.rmtree(scratch, ignore_errors=True)
     c.cov["traces_validated_against_impl"] += len(runs)
